@@ -64,7 +64,7 @@ def stage_rule(ctx, run, res, rule, rows_atom, cols_atom, entry_fn):
 
 def cotangent_rule(ctx, res, rule, rows_atom, entry_fn):
     ones = [e for e in _pipe.evs(res, "create") if e["fn"] == "ones_like" and e["like"] == [rows_atom]]
-    others = [e for e in _pipe.evs(res, "create") if e["like"] == [rows_atom] and e["fn"] not in ("ones_like", "new_zeros", "zeros", "new_empty", "empty")]  # (zero buffers are not cotangents)
+    others = [e for e in _pipe.evs(res, "create") if e["like"] == [rows_atom] and e["fn"] not in ("ones_like", "new_zeros", "zeros")]  # (zero buffers are not cotangents)
     dg = _pipe.evs(res, "diag")
     if dg and all(e.get("block") for e in dg):
         # the diagonal matrix built block of columns by block of columns: every block sits on its own rows, all cut from one packed vector
